@@ -410,4 +410,11 @@ def r8_values_reach_their_own_key(ctx):
     r6_names_values_same_order(ctx)
 
 
-RULES = [r8_values_reach_their_own_key, r7_literal_conversion, r6_assignment_does_not_leak_through_copies, r1_arguments_refuse_unknown, r2_set_is_existence_checked, r3_single_resolution_rule, r4_validate_steps, r5_assignment_is_local]
+def r9_calibration_values_reach_their_own_key(ctx):
+    """In calibration the decision vector is cut into per-key slices by a running offset: every walker advances the offset for EVERY declared variable on every path (shared with C10.R1), otherwise the keys after a skipped one receive their neighbour's values."""
+    from props.C10 import r1_slice_walk
+
+    r1_slice_walk(ctx)
+
+
+RULES = [r9_calibration_values_reach_their_own_key, r8_values_reach_their_own_key, r7_literal_conversion, r6_assignment_does_not_leak_through_copies, r1_arguments_refuse_unknown, r2_set_is_existence_checked, r3_single_resolution_rule, r4_validate_steps, r5_assignment_is_local]
